@@ -80,6 +80,20 @@ def gen_plan(ch: Chooser, tier: str) -> dict[str, Any]:
         for k_, fin_ in enumerate(('other.example.com/first', 'other.example.com/last')):
             plan['actions'].append({'t': round(plan['horizon'] + 5.0 + k_, 6), 'do': 'edit', 'edit': 'remove-finalizer',
                                     'name': name, 'value': fin_, 'actor': 'controller'})
+    labelled = [h for h in op['handlers'] if h['kind'] in ('daemon', 'timer') and (h.get('opts') or {}).get('labels')]
+    if labelled and ch.bool(0.4):
+        # an object under deletion stops matching for an instant (label off and on again) while its daemon is still
+        # being stopped: the release decided for the non-matching view must not survive the re-match
+        name = ch.choice(names)
+        t_del = next((a['t'] for a in plan['actions'] if a['do'] == 'delete' and a.get('name') == name), None)
+        if t_del is None:
+            t_del = round(ch.float(3.0, plan['horizon']), 6)
+            plan['actions'].append({'t': t_del, 'do': 'delete', 'name': name})
+        t_off = round(t_del + ch.choice([0.05, 0.3, 0.6]), 6)
+        plan['actions'].append({'t': t_off, 'do': 'patch', 'name': name, 'patch': {'metadata': {'labels': {'run': 'no'}}}})
+        plan['actions'].append({'t': round(t_off + ch.choice([0.001, 0.005, 0.02]), 6), 'do': 'patch', 'name': name,
+                                'patch': {'metadata': {'labels': {'run': 'yes'}}}})
+        plan['actions'].sort(key=lambda a: a['t'])
     plan['triggers'] = triggers
     if ch.bool(0.4):
         t = ch.float(3.0, plan['horizon'])
